@@ -75,6 +75,9 @@ class Runtime:
                 return self_._s
 
             attrs = {"__module__": None if c.get("oddmod") else "vmod", "__str__": __str__, "_s": "unset"}
+            if c.get("unhashable"):
+                attrs["__eq__"] = lambda self_, other: self_ is other
+                attrs["__hash__"] = None
             if c.get("falsy"):
                 # an exception object that is falsy (e.g. an aggregate of zero errors): `if exception:` is not `is not None`
                 attrs["__len__"] = lambda self_: 0
